@@ -38,14 +38,14 @@ class C19(Check):
     stub = ["clocks (SimClock; _time_used is computed from time.time())", "global PRNGs seeded by the run (shuffle, validation sampling)",
             "size threshold moved through the guarded hook SPARSESPACE_VERIF_DE_THRESHOLD in a third of the runs (learning and evaluation then use the large-grid implementations)"]
     rule = ("schedule = labelled learning set (2-4 classes, 30-80 samples, 2-3 dims, optional unlabelled samples), split percentage, even / "
-            "uneven split, shuffle, standard or dimension-wise learning with small levels, then <= 5 calls of __call__ / test_data / evaluate "
+            "uneven split, shuffle, standard or dimension-wise learning with small levels (15 % with one_vs_others), then <= 5 calls of __call__ / test_data / evaluate "
             "/ continue_dimension_wise_refinement with fresh data sets inside, partly outside or entirely outside the learned range, with or without unlabelled samples, or with a "
             "deep copy of the object's own (already scaled) learning / testing piece. The arg-max is taken over densities the harness "
             "interpolates itself (scipy, multilinear) from the published scheme, coefficients and 1-D point lists; the object's own density "
             "answers must equal them. A state "
             "is (learning configuration class, sequence of call kinds with the numbers of classified samples); distinct_nontrivial counts "
             "distinct states after a call")
-    expected_probes = ["user_specified_range", "call_in_range", "call_partly_out", "all_out_refused", "unlabelled_set_aside", "test_data", "reclassified_earlier_data", "own_scaled_piece", "continued_learning", "same_array_evaluated_again", "large_grid_implementation_on_small_grids"]
+    expected_probes = ["user_specified_range", "call_in_range", "call_partly_out", "all_out_refused", "unlabelled_set_aside", "test_data", "reclassified_earlier_data", "own_scaled_piece", "continued_learning", "same_array_evaluated_again", "large_grid_implementation_on_small_grids", "one_vs_others"]
     assumptions = ["ties between maximal densities accept any maximiser (tolerance 1e-9 relative on the densities)",
                    "the in-range test is the library's documented one on the scaled coordinates: 0.0049 <= s <= 0.9951"]
 
@@ -60,7 +60,7 @@ class C19(Check):
         cfg = {"dim": dim, "k": k, "n": r.choice([30, 40, 60, 80]), "data_seed": r.randrange(10 ** 6), "unl": r.choice([0.0, 0.0, 0.2]),
                "split": r.choice([1.0, 1.0, 0.7, 0.5]), "even": r.random() < 0.5, "shuffle": r.random() < 0.5,
                "learn": r.choice(["standard", "standard", "dimwise"]), "masslumping": r.random() < 0.5, "lambd": r.choice([0.0, 0.01, 0.1]),
-               "lmax": r.choice([2, 2, 3]), "one_vs_others": False, "max_evaluations": r.choice([20, 40, 80]),
+               "lmax": r.choice([2, 2, 3]), "one_vs_others": stream(rk, "ovo").random() < 0.15, "max_evaluations": r.choice([20, 40, 80]),
                "rebalancing": r.random() < 0.3, "boundary": r.random() < 0.3,
                # user-specified data range (30 %): per dimension the data's own extreme or a wider bound
                "user_range": [[r.choice([0.0, 0.0, 0.1, 0.5]), r.choice([0.0, 0.0, 0.1, 0.5])] for _ in range(dim)] if r.random() < 0.3 else None}
@@ -157,6 +157,12 @@ class C19(Check):
             lo, hi, data_range = dmin, dmax, None
         cl = D.Classification(D.DataSet((X.copy(), y.copy())), data_range=data_range, split_percentage=c["split"], split_evenly=c["even"],
                               shuffle_data=c["shuffle"], print_level=100, log_level=100)
+        if c["one_vs_others"]:
+            # split_one_vs_others indexes its class counts by label value: it is defined for learning pieces labelled 0..k-1
+            ll = sorted(set(int(v) for v in np.array(cl.get_learning_data().get_data()[1])))
+            if ll != list(range(len(ll))):
+                raise Excluded("one_vs_others with a learning piece whose labels are not 0..k-1")
+            ctx.probe("one_vs_others")
         if c["learn"] == "standard":
             cl.perform_classification(masslumping=c["masslumping"], lambd=c["lambd"], minimum_level=1, maximum_level=c["lmax"],
                                       one_vs_others=c["one_vs_others"], print_metrics=False)
